@@ -968,6 +968,10 @@ func verdictIn(e *Env, site, pos string, h helperSpec, fn *ssa.Function, r verdi
 				e.S.Bad("C20.verdict", site, "plain branch", "the equality assertion is skipped on some path after NoError held: differing results can pass silently"+where, e.posOf(eq), "")
 			case !argsWithT(eq) || !anyArg(eq, r.isData) || !anyArg(eq, r.isExpect):
 				e.S.Bad("C20.verdict", site, "plain branch", "the equality assertion does not compare the case's "+expectField+" with the produced result on the helper's t"+where, e.posOf(eq), "")
+			case argIndex(eq, r.isExpect) > argIndex(eq, r.isData):
+				// expected first, actual second — testify's and TypeHelper.AssertEqual's order: a helper that treats the two
+				// differently (ignores zero fields of the expectation) judges the wrong way round
+				e.S.Bad("C20.verdict", site, "plain branch", "the equality assertion is given the produced result as the expectation and the case's "+expectField+" as the actual value (expected, actual exchanged): a TypeHelper whose AssertEqual is not symmetric misses differing values and reports equal ones"+where, e.posOf(eq), "a TypeHelper that ignores zero fields of the expected value")
 			case h.marshal && rawByteSlices(eq, r):
 				// testify's Equal tells a nil []byte from an empty one: as data they are the same
 				e.S.Bad("C20.verdict", site, "plain branch", "the expected and the produced bytes are compared as []byte values with assert.Equal, which tells nil from empty: a marshaler returning an empty non-nil slice for a case without Data (or nil for Data: []byte{}) is reported as differing"+where, e.posOf(eq), "Data omitted, marshaler returns ([]byte{}, nil)")
@@ -984,7 +988,9 @@ func verdictIn(e *Env, site, pos string, h helperSpec, fn *ssa.Function, r verdi
 					if cmp.Op == token.EQL {
 						predEdge, plainEdge = plainEdge, predEdge
 					}
-					if predCall != nil && noErr != nil && (predEdge == predCall.Block() || predEdge.Dominates(predCall.Block())) && (plainEdge == noErr.Block() || plainEdge.Dominates(noErr.Block())) &&
+					// each arm is entered from this test alone (`c.Error != nil && err != nil` sends a case with an expected
+					// but missing error into the plain arm through a second door)
+					if predCall != nil && noErr != nil && len(predEdge.Preds) == 1 && len(plainEdge.Preds) == 1 && (predEdge == predCall.Block() || predEdge.Dominates(predCall.Block())) && (plainEdge == noErr.Block() || plainEdge.Dominates(noErr.Block())) &&
 						!(plainEdge == predCall.Block() || plainEdge.Dominates(predCall.Block())) && !(predEdge == noErr.Block() || predEdge.Dominates(noErr.Block())) {
 						sel = true
 					}
@@ -1022,6 +1028,16 @@ func rawByteSlices(eq *ssa.Call, r verdictRoles) bool {
 		}
 	}
 	return false
+}
+
+// argIndex: the position of the first argument of c that satisfies p (−1 if none).
+func argIndex(c *ssa.Call, p func(ssa.Value) bool) int {
+	for i, a := range c.Call.Args {
+		if p(a) {
+			return i
+		}
+	}
+	return -1
 }
 
 func anyArg(c *ssa.Call, p func(ssa.Value) bool) bool {
@@ -1155,9 +1171,34 @@ func ruleC20Pred(e *Env) {
 				}
 			}
 		}
+		// which operand is which: the error's text is what is examined, the constructor's text what it is examined for
+		// (HasPrefix(s, prefix), HasSuffix(s, suffix), MatchString(pattern, s))
+		isErrText := func(v ssa.Value) bool {
+			ec, ok := flow.Strip(v).(*ssa.Call)
+			return ok && ec.Call.IsInvoke() && ec.Call.Method.Name() == "Error"
+		}
+		isFreeArg := func(v ssa.Value) bool {
+			if u, ok := flow.Strip(v).(*ssa.UnOp); ok {
+				_, isFree := u.X.(*ssa.FreeVar)
+				return isFree
+			}
+			_, isFree := flow.Strip(v).(*ssa.FreeVar)
+			return isFree
+		}
+		swapped := false
+		if c != nil && len(c.Call.Args) == 2 {
+			switch calleeName(&c.Call) {
+			case "strings.HasPrefix", "strings.HasSuffix":
+				swapped = isFreeArg(c.Call.Args[0]) && isErrText(c.Call.Args[1])
+			case "regexp.MatchString":
+				swapped = isErrText(c.Call.Args[0]) && isFreeArg(c.Call.Args[1])
+			}
+		}
 		switch {
 		case c == nil:
 			e.S.Bad(rule, "test."+p.fn, "assertion", p.fn+" does not evaluate "+p.what, e.Pos(fn), "")
+		case swapped:
+			e.S.Bad(rule, "test."+p.fn, "assertion", "the operands of "+calleeName(&c.Call)+" are exchanged: the text given to "+p.fn+" is examined for the error's text, not the error's text for it ("+p.what+")", e.posOf(c), "an error text that properly extends the given text")
 		case !usesFree(c):
 			e.S.Bad(rule, "test."+p.fn, "assertion", p.what+" is not applied to the text given to "+p.fn, e.posOf(c), "")
 		default:
